@@ -37,6 +37,8 @@ pub fn gen_doc(lang: &str, n: usize) -> (Vec<u8>, Vec<usize>) {
         "groups" => { let per = (n / 16).max(1); for gi in 0..4 { s.push_str(if gi % 2 == 0 { "first 7 {+\n" } else { "second 7 {-\n" }); for e in 0..per { edit_at.push(s.len() + 6); s.push_str(&format!("key = {};\n", 10 + e % 80)); } s.push_str("}\n"); } }
         // identifier-first statements: the first leaf of every statement is the word token
         "stmts_calls" => { while i * 7 < n { let a = names[i % 5]; edit_at.push(s.len() + a.len() + 1 + names[(i + 1) % 5].len() + 2); s.push_str(&format!("{}({}, {});\n", a, names[(i + 1) % 5], 10 + i % 80)); i += 1; } }
+        // statements whose first child ends in a repetition of four elements
+        "stmts_from" => { while i * 6 < n { let a = names[i % 5]; edit_at.push(s.len() + 5); s.push_str(&format!("from {} {} {} {};\n", a, names[(i + 1) % 5], names[(i + 2) % 5], names[(i + 3) % 5])); i += 1; } }
         "lookfar" => { while i * 6 < n { edit_at.push(s.len()); s.push_str(&format!("{} bc-a! a-bc bc\n", names[i % 5])); i += 1; } }
         // column-dependent tokens (the scanner asks for the column) on every line; the edited token is the first word
         "colm" => { while i * 8 < n { edit_at.push(s.len()); s.push_str(&format!("{} ! beta @ (gamma ! @)\n", names[i % 5])); i += 1; } }
@@ -74,7 +76,7 @@ pub fn measure(parser: &mut Parser, old_text: &[u8], old_tree: &tree_sitter::Tre
 
 /// document families are named after their zoo language, except `stmts_calls` (stmts documents made of statements that
 /// BEGIN with an identifier, i.e. with the `word` token)
-pub fn zoo_of(label: &str) -> &str { if label == "stmts_calls" { "stmts" } else { label } }
+pub fn zoo_of(label: &str) -> &str { if label == "stmts_calls" || label == "stmts_from" { "stmts" } else { label } }
 
 /// thresholds: (max lexed tokens, max bytes read, min shared fraction at N >= 1000)
 pub fn thresholds(lang: &str) -> (usize, usize, f64) {
@@ -95,6 +97,8 @@ pub fn thresholds(lang: &str) -> (usize, usize, f64) {
         // column-dependent tokens: every text-changing edit invalidates the column-dependent tokens of the rest of ITS line
         // (measured: 13-24 tokens, 66 bytes, 0.63-0.64 shared at N = 1e3 and 1e4); nothing beyond the line may be touched
         "colm" => (60, 4096, 0.45),
+        // statements whose first child ends in a repetition: measured 4 tokens, 64 bytes, 0.993 shared
+        "stmts_from" => (60, 4096, 0.70),
         "lexla" => (60, 4096, 0.0), // every node is a leaf below a re-built repeat node: identity sharing is not asserted
         _ => (60, 4096, 0.3),
     }
@@ -107,7 +111,7 @@ pub fn worker(ctx: &Ctx, res: &mut ShardResult) {
     // `indent` is deliberately not in the calibrated set: on the reference tree its zero-width scanner tokens make the
     // re-parse lex everything after the edit (measured: all of N tokens), so no meaningful regression bound exists for it.
     // Likewise `glr`: with several stack versions alive the parser does not reuse nodes at all (measured: 80% of N lexed).
-    for lname in ["stmts", "arith", "jsonish", "pstring", "lexla", "groups", "stmts_calls", "colm"] {
+    for lname in ["stmts", "arith", "jsonish", "pstring", "lexla", "groups", "stmts_calls", "colm", "stmts_from"] {
         let z = crate::zoo::by_name(zoo_of(lname)).unwrap();
         let info = build_info(&z);
         let (max_lexed_abs, max_bytes_abs, min_shared) = thresholds(lname);
